@@ -142,6 +142,28 @@ func scenC17(c *ctx) {
 	for _, s := range []string{"+5", "-5", strings.Repeat("9", 65), strings.Repeat("9", 200), strings.Repeat("9", 309)} {
 		c.rec.Emit(doParseDecimalChallenge(k("qunspec"), s))
 	}
+	// a call that FAILS (or is outside the domain) followed by a short valid one: nothing of the failed call may
+	// survive into the next (reused scratch memory, sticky state)
+	for i := 0; i < c.n(40, 600); i++ {
+		long := c.decString(20 + c.rng.Intn(200))
+		bad := []string{"-" + long, long + "x", "+" + long, long + " ", long[:len(long)/2] + "-" + long[len(long)/2:]}[c.rng.Intn(5)]
+		c.rec.Emit(doParseDecimalChallenge(k("poison/q"), bad))
+		short := c.decString(1 + c.rng.Intn(12))
+		c.rec.Emit(doParseDecimalChallenge(k("afterpoison/q"), short))
+		hx := c.hexString(2 * (10 + c.rng.Intn(40)))
+		c.rec.Emit(doParseHexTimestamp(k("poison/ts"), hx+"zz"))
+		c.rec.Emit(doParseHexTimestamp(k("afterpoison/ts"), c.hexString(1+c.rng.Intn(15))))
+		c.rec.Emit(doHexInputToOCRA(k("poison/hex5"), [5]string{hx, hx + "g", hx, "", hx}))
+		c.rec.Emit(doHexInputToOCRA(k("afterpoison/hex5"), [5]string{c.hexString(16), c.hexString(2 * (4 + c.rng.Intn(8))), "", c.hexString(2 * c.rng.Intn(5)), ""}))
+		c.rec.Emit(doParseDec(k("poison/dec"), long, i%2))
+		c.rec.Emit(doParseDec(k("afterpoison/dec"), c.decString(1+c.rng.Intn(15)), i%2))
+		if i%4 == 0 {
+			if sa, err := rawSuiteArg("OCRA-1:HOTP-SHA1-6:QN08"); err == nil {
+				c.rec.Emit(doParseDecimalChallenge(k("poison/q2"), "-"+long))
+				c.rec.Emit(doOCRAQuestion(k("afterpoison/e2e"), b32(c.randBytes(20)), sa, short, otp.OCRAInput{}))
+			}
+		}
+	}
 	// end to end: numeric-challenge suites of every hash and digit count
 	for _, h := range []string{"SHA1", "SHA256", "SHA512"} {
 		for d := 4; d <= 10; d++ {
